@@ -295,8 +295,11 @@ func definitelyNil(r *core.Run, v ssa.Value) bool {
 	return n > 0
 }
 
-// edgeReturn follows a branch edge through unconditional jumps and returns the
-// Return instruction it inevitably reaches (nil if it branches again first).
+// edgeReturn follows a branch edge through unconditional jumps — and through
+// branches whose outcome is decided on that path (a test of a value that is
+// evidently nil / non-nil / constant there, as left behind by helper
+// expansion: `err = ErrX; if err != nil { return err }`) — and returns the
+// Return instruction it inevitably reaches (nil if it really branches first).
 func edgeReturn(iff *ssa.If, branch bool) *ssa.Return {
 	b := iff.Block()
 	if len(b.Succs) != 2 {
@@ -306,7 +309,8 @@ func edgeReturn(iff *ssa.If, branch bool) *ssa.Return {
 	if branch {
 		t = b.Succs[0]
 	}
-	for hops := 0; hops < 4 && t != nil; hops++ {
+	pred := b
+	for hops := 0; hops < 8 && t != nil; hops++ {
 		if len(t.Instrs) == 0 {
 			return nil
 		}
@@ -314,7 +318,13 @@ func edgeReturn(iff *ssa.If, branch bool) *ssa.Return {
 		case *ssa.Return:
 			return last
 		case *ssa.Jump:
-			t = t.Succs[0]
+			pred, t = t, t.Succs[0]
+		case *ssa.If:
+			fs := core.FeasibleSuccs(t, pred)
+			if len(fs) != 1 {
+				return nil
+			}
+			pred, t = t, fs[0]
 		default:
 			return nil
 		}
